@@ -26,8 +26,8 @@ run_one() { # name prop patchfile
     kind=$(echo "$out" | grep -m1 "^  kind:" | sed 's/^  kind: //')
     detail=$(echo "$out" | grep -m1 "document:" | cut -c1-100)
     case $rc in
-      1) printf '%s\t%s\tCAUGHT\t%s %s\n' "$name" "$prop" "$kind" "$detail" >> "$res";;
-      0) printf '%s\t%s\tMISSED\t\n' "$name" "$prop" >> "$res";;
+      1) case "$name" in neutral_*) printf '%s\t%s\tFALSE-ALARM\t%s %s\n' "$name" "$prop" "$kind" "$detail" >> "$res";; *) printf '%s\t%s\tCAUGHT\t%s %s\n' "$name" "$prop" "$kind" "$detail" >> "$res";; esac;;
+      0) case "$name" in neutral_*) printf '%s\t%s\tSILENT(expected)\t\n' "$name" "$prop" >> "$res";; *) printf '%s\t%s\tMISSED\t\n' "$name" "$prop" >> "$res";; esac;;
       *) printf '%s\t%s\tERROR(%s)\t%s\n' "$name" "$prop" "$rc" "$(echo "$out" | tail -2 | tr '\n' ' ' | cut -c1-200)" >> "$res";;
     esac
     ( cd "$S/repo" && git checkout -q -- . )
@@ -55,7 +55,7 @@ if [ -z "$pat" ]; then
   echo "|---|---|---|---|"
   while IFS=$'\t' read -r name prop verdict info; do echo "| $name | $prop | $verdict | ${info//|/\\|} |"; done < "$res"
   echo
-  echo "Totals: $(grep -c CAUGHT "$res") caught, $(grep -c MISSED "$res") missed, $(grep -c ERROR "$res") errors."
+  echo "Totals: $(grep -c CAUGHT "$res") caught, $(grep -c MISSED "$res") missed, $(grep -c ERROR "$res") errors; behaviour-preserving edits: $(grep -c SILENT "$res") silent, $(grep -c FALSE-ALARM "$res") false alarms."
 } > /verif/SENSITIVITY.md
 fi
 awk -F'\t' '{print $3}' "$res" | sort | uniq -c
